@@ -15,7 +15,7 @@
    no breakdown division occurs -- for SPD matrices over R none can occur (Proofs/IterCGR.v). *)
 From Coq Require Import List Arith Lia Bool Ring Field.
 From OV Require Import Base.Panic Base.Arith Model.Vector Model.Iter Proofs.Iter Proofs.IterField
-  Proofs.IterCGVec Proofs.IterSparseBreakdown.
+  Proofs.SparseMul Proofs.IterSparse Proofs.IterCGVec Proofs.IterCGDim Proofs.IterSparseBreakdown.
 Import ListNotations.
 
 (* a product that is symmetric with respect to the code's inner product:  <u, A v> = <A u, v> *)
@@ -547,6 +547,64 @@ Proof.
     destruct (cg_hist_conjugacy FL n mulA LO SYM tol _ s0 _ s R P Hl0 Hh) as (Ho & _).
     apply FOP_cons_inv in Ho as (Ho & _). rewrite Forall_forall in Ho. apply Ho.
     change (zipw sub b ax) with (cg_r s0). eapply cg_hist_first_in; eauto. lia.
+Qed.
+
+(* ANY field (no order, no square-root law), A symmetric: breakdown or termination.  A run that starts iteration i >= 2 without
+   a panic has divided by rho_{i-2} = <r_{i-2}, r_{i-2}>, so r_0 .. r_{i-2} are mutually orthogonal and non-isotropic, hence at most
+   n (orth_family_bound): whenever solve_cg returns at all with a budget >= n+2 it returns Ok k with k <= n+1 *)
+Theorem cg_breakdown_or_terminates cols (b x0 : list F) max tol res x g :
+  n + 2 <= max ->
+  solve_cg mulA n cols b x0 max tol = Ok (res, x, g) ->
+  exists k, res = IOk k /\ k <= n + 1.
+Proof.
+  intros Hmax H. destruct (solve_cg_inv _ _ _ _ _ _ H) as (ax & resid & Hb & Hx & Eax & Hr0 & [(X & E)|Hloop]).
+  { injection E as -> _ _. exists 0. split; [reflexivity | lia]. }
+  set (s0 := mkCG x0 (zipw sub b ax) (zeros n) (zeros n) one resid (trace0 x0 resid tol)) in *.
+  set (bd := cg_body mulA n tol (nz (norm2 b))) in *.
+  assert (Hl0 : cg_lens n s0).
+  { unfold cg_lens, s0; cbn. repeat split; auto; apply zeros_length. }
+  set (Inv := fun (i : nat) (s : @cg_st A) =>
+         exists R P, cg_hist bd s0 i s R P /\ Forall (fun u => dot_raw u u <> zero) (tl R)).
+  assert (Hnz : forall i s R P, cg_hist bd s0 i s R P -> 2 <= i -> forall out, bd i s = Ok out ->
+                  Forall (fun u => dot_raw u u <> zero) (tl R) -> Forall (fun u => dot_raw u u <> zero) R).
+  { intros i s R P Hh Hi out Eb Htl.
+    pose proof (cg_hist_inv FL n mulA LO SYM tol _ s0 i s R P Hl0 Hh) as HI.
+    destruct (cg_body_post FL n mulA LO SYM tol _ s0 i s R P _ HI Eb) as (x' & r' & p & rho & rs & X & Hs & _).
+    destruct HI as (_ & _ & _ & [(-> & _)|(_ & HI)]); [lia|].
+    destruct HI as (_ & _ & _ & _ & (R' & P' & -> & _ & Hrho1 & _) & _).
+    destruct Hs as (_ & Hdir & _). replace (i =? 1) with false in Hdir by (symmetry; apply Nat.eqb_neq; lia).
+    destruct Hdir as (beta & Ebeta & _). apply (div_Ok_inv FL) in Ebeta as (Hne & _).
+    constructor; [now rewrite <- Hrho1 | exact Htl]. }
+  assert (Hbound : forall i s R P, cg_hist bd s0 i s R P -> Forall (fun u => dot_raw u u <> zero) R -> length R <= n).
+  { intros i s R P Hh Han.
+    destruct (cg_hist_conjugacy FL n mulA LO SYM tol _ s0 i s R P Hl0 Hh) as (Horth & _).
+    apply FOP_cons_inv in Horth as (_ & Horth).
+    apply (orth_family_bound FL n R); auto.
+    pose proof (cg_hist_inv FL n mulA LO SYM tol _ s0 i s R P Hl0 Hh) as (_ & _ & _ & [(_ & _ & -> & _)|(_ & HI)]); [constructor|].
+    destruct HI as (_ & _ & HlR & _). exact HlR. }
+  assert (Hstep : forall i s s', Inv i s -> bd i s = Ok (Continue s') -> Inv (S i) s').
+  { intros i s s' (R & P & Hh & Htl) Eb. exists (cg_r s :: R), (cg_p s' :: P). split; [econstructor; eauto|].
+    cbn [tl]. destruct (Nat.eq_dec i 1) as [->|Hne].
+    - pose proof (cg_hist_conjugacy FL n mulA LO SYM tol _ s0 1 s R P Hl0 Hh) as (_ & _ & _ & HlR & _).
+      destruct R; [constructor | discriminate HlR].
+    - apply (Hnz i s R P Hh) with (out := Continue s'); auto. apply cg_hist_ge in Hh. lia. }
+  assert (H0 : Inv 1 s0) by (exists [], []; split; constructor).
+  destruct (iloop_char bd cg_final Inv Hstep max 1 s0 _ H0 Hloop) as [(i & s & Hi & (R & P & Hh & Htl) & Eb)|(s & (R & P & Hh & Htl) & E)].
+  - pose proof (cg_hist_inv FL n mulA LO SYM tol _ s0 i s R P Hl0 Hh) as HI.
+    destruct (cg_body_post FL n mulA LO SYM tol _ s0 i s R P _ HI Eb) as (x' & r' & p & rho & rs & X & _ & _ & _ & Eo).
+    destruct (leb rs tol); [|discriminate Eo]. injection Eo as -> _ _. exists i. split; [reflexivity|].
+    destruct (cg_hist_conjugacy FL n mulA LO SYM tol _ s0 i s R P Hl0 Hh) as (_ & _ & _ & HlR & _).
+    destruct (Nat.eq_dec i 1) as [->|Hne]; [lia|].
+    assert (Hall : Forall (fun u => dot_raw u u <> zero) R) by (apply (Hnz i s R P Hh) with (out := Return (IOk i, x, g)); auto; lia).
+    pose proof (Hbound i s R P Hh Hall). lia.
+  - exfalso. destruct (cg_hist_conjugacy FL n mulA LO SYM tol _ s0 _ s R P Hl0 Hh) as (Horth & _ & _ & HlR & _).
+    assert (Hb2 : length (tl R) <= n).
+    { apply (orth_family_bound FL n (tl R)); auto.
+      - pose proof (cg_hist_inv FL n mulA LO SYM tol _ s0 _ s R P Hl0 Hh) as (_ & _ & _ & [(Hi & _)|(_ & HI)]); [lia|].
+        destruct HI as (_ & _ & HlRn & _). destruct R; cbn [tl]; [constructor | exact (Forall_inv_tail HlRn)].
+      - apply FOP_cons_inv in Horth as (_ & Horth). destruct R; cbn [tl]; [constructor|].
+        apply FOP_cons_inv in Horth. tauto. }
+    destruct R; cbn [tl length] in *; lia.
 Qed.
 
 End CGSolver.
